@@ -150,6 +150,30 @@ Qed.
 Example ex_rotated_box_enclosed : forall o, @build3 ROps ex_rotated_box = Some o -> enc3 o.
 Proof. intros o. apply all_compositions3, ex_rotated_box_wf. Qed.
 
+(* a torus (full revolution of a translated circle) cut by a rounded cone, offset: Revolve with theta = 0
+   and Cone3D are in LbInf *)
+Lemma fmod_zero : Rfmod (Rabs 0) (@tau ROps) = 0.
+Proof.
+  rewrite Rabs_R0. unfold Rfmod, Rtrunc. replace (0 / @tau ROps) with 0 by (unfold Rdiv; ring).
+  destruct (Rle_dec 0 0) as [_|N]; [|lra]. destruct (base_Int_part 0) as [A B].
+  assert (E : Int_part 0 = 0%Z). { apply le_IZR in A. assert (C : IZR (-1) < IZR (Int_part 0)) by lra. apply lt_IZR in C. lia. }
+  rewrite E. ring.
+Qed.
+Definition ex_torus : RS3 :=
+  Offset3 (Intersect3 MaxDef (Revolve (Transform2 (Circle 1) (@mk_translate2d ROps (mkV2 3 0))) 0)
+                             (Cone 2 4 3 (1 / 4))) (1 / 4).
+Example ex_torus_wf : wf3 ex_torus.
+Proof.
+  assert (T : affine33 (@mk_translate2d ROps (mkV2 3 0)) /\ @m33_determinant ROps (@mk_translate2d ROps (mkV2 3 0)) <> 0 /\
+              is_translate2 (@mk_translate2d ROps (mkV2 3 0))).
+  { split; [unfold affine33; cbn; auto|]. split; [unfold m33_determinant, mk_translate2d; cbn; lra | now exists (mkV2 3 0)]. }
+  destruct T as (A & D & T). pose proof fmod_zero as Z.
+  cbn -[m33_determinant mk_translate2d Rfmod tau].
+  split; [split; [exact I | split; [exact I | split; assumption]] | split; [lra | left; split; [left; left; split; [exact I | exact T] | exact Z]]].
+Qed.
+Example ex_torus_enclosed : forall o, @build3 ROps ex_torus = Some o -> enc3 o.
+Proof. intros o. apply all_compositions3, ex_torus_wf. Qed.
+
 (* the hypothesis build = Some is satisfiable: the plate really builds *)
 Example ex_plate_builds : exists o, @build3 ROps ex_plate = Some o.
 Proof.
